@@ -13,6 +13,7 @@ vstatic!(WRITES: [VAtomicUsize; 2] = [VAtomicUsize::new(0), VAtomicUsize::new(0)
 vstatic!(LEN: [VAtomicUsize; 2] = [VAtomicUsize::new(0), VAtomicUsize::new(0)]);
 vstatic!(SUM: [VAtomicUsize; 2] = [VAtomicUsize::new(0), VAtomicUsize::new(0)]);
 vstatic!(FAIL: [VAtomicUsize; 2] = [VAtomicUsize::new(0), VAtomicUsize::new(0)]);
+vstatic!(FLUSHED: [VAtomicUsize; 2] = [VAtomicUsize::new(0), VAtomicUsize::new(0)]);
 vstatic!(SHORT: [VAtomicUsize; 2] = [VAtomicUsize::new(0), VAtomicUsize::new(0)]);      // != 0: write() accepts one byte per call
 vstatic!(TOTAL: [VAtomicUsize; 2] = [VAtomicUsize::new(0), VAtomicUsize::new(0)]);      // bytes ACCEPTED so far
 vstatic!(ROLL: [VAtomicUsize; 2] = [VAtomicUsize::new(0), VAtomicUsize::new(0)]);       // rolling hash of the accepted bytes
@@ -30,7 +31,7 @@ impl io::Write for SinkW {
         ROLL[self.0].store(r, VSeq); TOTAL[self.0].fetch_add(take, VSeq);
         Ok(take)
     }
-    fn flush(&mut self) -> io::Result<()> { Ok(()) }
+    fn flush(&mut self) -> io::Result<()> { FLUSHED[self.0].fetch_add(1, VSeq); if FAIL[self.0].load(VSeq) != 0 { Err(io::ErrorKind::Other.into()) } else { Ok(()) } }
 }
 impl<'a> MakeWriter<'a> for Sink {
     type Writer = SinkW;
@@ -160,4 +161,29 @@ fn c13_on_event_whole_record_reaches_a_writer_that_accepts_one_byte_at_a_time() 
     Collect::event(&stack, &ev);
     assert!(MADE_FOR[0].load(VSeq) == 1 && MADE[0].load(VSeq) == 0, "C13.on_event.short_writes.asks_factory_once_with_metadata");
     assert!(TOTAL[0].load(VSeq) == 3 && ROLL[0].load(VSeq) == hash(b"AB\n"), "C13.on_event.short_writes.the_whole_record_is_handed_over_including_the_newline");
+}
+
+// Tee: EVERY io::Write method reaches both sinks (each method is forwarded by its own macro arm), also when one fails
+#[kani::proof]
+#[kani::unwind(8)]
+#[kani::stub(core::fmt::Formatter::pad, pad_stub)]
+fn c13_tee_every_write_method_reaches_both_sinks() {
+    let m = vmeta_of(any_rank());
+    let fa: bool = nd(); let fb: bool = nd();
+    FAIL[0].store(fa as usize, VSeq); FAIL[1].store(fb as usize, VSeq);
+    let mut w = Sink(0).and(Sink(1)).make_writer_for(m);
+    let method: u8 = nd(); kani::assume(method < 4);
+    let failed = match method {
+        0 => w.write(b"abc").is_err(),
+        1 => w.write_all(b"abc").is_err(),
+        2 => { let bufs = [io::IoSlice::new(b"abc")]; w.write_vectored(&bufs).is_err() }
+        _ => w.flush().is_err(),
+    };
+    if method == 3 {
+        assert!(FLUSHED[0].load(VSeq) == 1 && FLUSHED[1].load(VSeq) == 1, "C13.Tee.flush_reaches_both_sinks_even_if_one_fails");
+    } else {
+        assert!(WRITES[0].load(VSeq) == 1 && WRITES[1].load(VSeq) == 1 && LEN[0].load(VSeq) == 3 && LEN[1].load(VSeq) == 3, "C13.Tee.every_write_method_hands_both_sinks_the_whole_buffer_once");
+        assert!(SUM[0].load(VSeq) == SUM[1].load(VSeq), "C13.Tee.every_write_method.same_bytes");
+    }
+    assert!(failed == (fa || fb), "C13.Tee.every_write_method.error_reported_iff_a_sink_failed");
 }
